@@ -782,6 +782,7 @@ fn desc_of(phrase: &str, c: &anything::Constant, db: Option<&anything::Db>) -> D
             (Some(id), Some(db)) => db.get_source(id).is_some(),
             _ => true,
         },
+        raw_hash: serde_cbor::value::to_value(c).map(|v| shipped::norm_hash(&v)).unwrap_or_default(),
     }
 }
 
@@ -957,7 +958,8 @@ fn canon_of(d: &Desc) -> Canon {
     (d.tokens.clone(), d.description.clone(), d.num.clone(), d.den.clone(), d.unit.clone(), d.source)
 }
 
-fn own_words_ask(db: &anything::Db, phrase: &str, words: &[&str], shipped: &std::collections::HashSet<Canon>, plain_first: bool) -> (Option<String>, Option<String>) {
+fn own_words_ask(db: &anything::Db, phrase: &str, words: &[&str], shipped: &(std::collections::HashSet<Canon>, std::collections::HashSet<String>), plain_first: bool) -> (Option<String>, Option<String>) {
+    let (shipped, shipped_raw) = (&shipped.0, &shipped.1);
     if plain_first {
         // the same words evaluated without descriptions first: what is described afterwards must
         // still be a complete constant
@@ -988,6 +990,11 @@ fn own_words_ask(db: &anything::Db, phrase: &str, words: &[&str], shipped: &std:
             // of one shipped constant
             why = Some(format!("returned constant {:?} (description {:?}, source {:?}) is not, field for field, any shipped constant", d.tokens, d.description, d.source));
         }
+        if why.is_none() && !shipped_raw.contains(&d.raw_hash) {
+            // ... also when both are looked at as plain CBOR (the shipped side never went through
+            // the library's types)
+            why = Some(format!("returned constant {:?} (description {:?}, unit {:?}) re-serialised as plain CBOR is not any shipped constant", d.tokens, d.description, d.unit));
+        }
         winner = Some(d.description.clone());
     }
     (why, winner)
@@ -1000,7 +1007,7 @@ fn own_words(db: &anything::Db, s: &shipped::Shipped, perms: Perms, only: &Optio
     let mut winners: Vec<u8> = Vec::new();
     // (constant index, plain phrase of its words in shipped order, winner of the plain sweep)
     let mut plain: Vec<(usize, String, Option<String>)> = Vec::new();
-    let shipped_set: std::collections::HashSet<Canon> = s.constants.iter().map(|c| canon_of(&desc_of("", c, None))).collect();
+    let shipped_set: (std::collections::HashSet<Canon>, std::collections::HashSet<String>) = (s.constants.iter().map(|c| canon_of(&desc_of("", c, None))).collect(), s.raw.iter().map(shipped::norm_hash).collect());
     let all_tokens = s.all_tokens();
     for (index, toks) in all_tokens.iter().enumerate() {
         if let Some(only) = only {
